@@ -5,4 +5,4 @@ PROP = "C11"
 run, search, replay = make(PROP, ('C11:',),
                            'Oracle C11: bad indices (negative, == dim, > dim, partial), wrong-shape array values, over-long strings and over-sized items must raise, and the whole buffer image must be byte-identical afterwards.',
                            ['known finding O-13: a dictionary update of a nested struct applies earlier fields before a later field raises (not atomic)'],
-                           ['union membership, foreign-context buffers and offset-without-buffer are refusals checked by the heap harness (C08/C09) and typeutils tests of the tie, not theorems'])
+                           ['union membership (refused bindings in the node histories of the reference-graph stream: the model leaves the state unchanged), foreign-context buffers and offset-without-buffer are refusals checked by the tie and oracles, not theorems'], rg=True)
